@@ -60,6 +60,34 @@
 typedef __float128 q_t;
 typedef long double ld_t;
 
+/* Configurations fenv-exact* (seeded change C08-M: a_real_llt took sqrt(pivot) BEFORE validating the pivot - an IEEE invalid operation for a negative
+   pivot, harmless by default, SIGFPE inside the library when the calling thread has FE_INVALID unmasked, where the pinned code returns A_FAILURE):
+   on the must-fail, exactly factorable and must-succeed classes (fx_trap_class, set by fx_case) FE_INVALID and FE_DIVBYZERO are UNMASKED
+   immediately before every library factorization / sweep / solve / inverse / determinant call and masked again immediately after it returns -
+   never while harness or oracle code runs.  The pinned library raises neither exception on these inputs (pivots are validated before they are
+   divided by or rooted; no NaN, no inf - inf, no 0/0 occurs); a trap kills the worker inside the call and bin/check reports it under a key
+   san/asan:FPE@<library function> with the journal of the case.  The sticky flags are cleared first (an x87 flag left pending by earlier harness
+   arithmetic would trap at the next x87 instruction once unmasked).  Both macros expand to nothing in the default configurations. */
+#ifdef VF_FENV_ROTATE
+static int fx_trap_class;
+static void fx_trap_on(void)
+{
+    if (!fx_trap_class) { return; }
+    VF_COUNT("fenv-library-call-with-invalid-and-divbyzero-unmasked");
+    feclearexcept(FE_ALL_EXCEPT);
+    feenableexcept(FE_INVALID | FE_DIVBYZERO);
+}
+static void fx_trap_off(void)
+{
+    if (fx_trap_class) { fedisableexcept(FE_INVALID | FE_DIVBYZERO); }
+}
+#define FX_TRAP_ON() fx_trap_on();
+#define FX_TRAP_OFF() fx_trap_off();
+#else
+#define FX_TRAP_ON()
+#define FX_TRAP_OFF()
+#endif
+
 #define NMAX 48u
 #define GUARD 8u
 #define CSAFE 4.0
@@ -1353,17 +1381,17 @@ static void factor(fact_t *f, int fam, unsigned cls, unsigned n, int expect, dou
     if (fam == FAM_PLU)
     {
         vf_log("a_real_plu(n=%u, A, p, &sign)  class=%s", n, f->cname);
-        rc = a_real_plu(n, A.v, P.v, &sgn[GUARD]);
+        FX_TRAP_ON() rc = a_real_plu(n, A.v, P.v, &sgn[GUARD]); FX_TRAP_OFF()
     }
     else if (fam == FAM_LDL)
     {
         vf_log("a_real_ldl(n=%u, A)  class=%s", n, f->cname);
-        rc = a_real_ldl(n, A.v);
+        FX_TRAP_ON() rc = a_real_ldl(n, A.v); FX_TRAP_OFF()
     }
     else
     {
         vf_log("a_real_llt(n=%u, A)  class=%s", n, f->cname);
-        rc = a_real_llt(n, A.v);
+        FX_TRAP_ON() rc = a_real_llt(n, A.v); FX_TRAP_OFF()
     }
     f->ok = (rc == 0);
     gd_guard(&A, rname, "A");
@@ -2639,8 +2667,10 @@ static void ub_sweeps(int api, int upper, unsigned n, double const *T, char cons
     vf_log("%s(n, %s, T*x0)", rn, form);
     ++vf.evals;
     memcpy(y.v, rhs, n * sizeof(double));
+    FX_TRAP_ON()
     if (upper) { call_upper(api, n, T, y.v, 0); }
     else { call_lower(api, n, T, y.v, 0); }
+    FX_TRAP_OFF()
     gd_guard(&y, rn, "y");
     ub_expect(rn, form, n, y.v, x0);
     snprintf(rn, sizeof(rn), "a_real_%s_%s_", fam_name[api], upper ? "upper" : "lower");
@@ -2648,8 +2678,10 @@ static void ub_sweeps(int api, int upper, unsigned n, double const *T, char cons
     ++vf.evals;
     for (size_t i = 0; i < (size_t)n * n; ++i) { B.v[i] = 1000.0 + (double)i; }
     for (unsigned i = 0; i < n; ++i) { B.v[(size_t)n * i + col] = rhs[i]; }
+    FX_TRAP_ON()
     if (upper) { call_upper(api, n, T, B.v + col, 1); }
     else { call_lower(api, n, T, B.v + col, 1); }
+    FX_TRAP_OFF()
     gd_guard(&B, rn, "strided column");
     for (unsigned i = 0; i < n; ++i) { colv[i] = B.v[(size_t)n * i + col]; }
     ub_expect(rn, form, n, colv, x0);
@@ -2746,7 +2778,7 @@ static void check_user_built(int fam, unsigned n, vf_rng *r)
         double *F = xd_copy(T, nn);
         vf_log("a_real_ldl(n, A0 = L0 D0 L0^T)  (user-built integer factors)");
         ++vf.evals;
-        int const rc = a_real_ldl(n, F);
+        FX_TRAP_ON() int const rc = a_real_ldl(n, F); FX_TRAP_OFF()
         int exact = rc == 0;
         for (unsigned i = 0; i < n && exact; ++i)
         {
@@ -3143,10 +3175,10 @@ static void fx_solve_exact(fact_t *f, vf_rng *r)
     snprintf(rn, sizeof(rn), "a_real_%s_lower", fn);
     vf_log("%s(n, A, y) then upper", rn);
     vf.evals += 2;
-    call_lower(fam, n, f->F, y.v, 0);
+    FX_TRAP_ON() call_lower(fam, n, f->F, y.v, 0); FX_TRAP_OFF()
     gd_guard(&y, rn, "y");
     snprintf(rn, sizeof(rn), "a_real_%s_upper", fn);
-    call_upper(fam, n, f->F, y.v, 0);
+    FX_TRAP_ON() call_upper(fam, n, f->F, y.v, 0); FX_TRAP_OFF()
     gd_guard(&y, rn, "x");
     inputs_intact(f, rn);
     cnt(fn, "-fenv-lower-upper-chain-equals-x0");
@@ -3162,8 +3194,8 @@ static void fx_solve_exact(fact_t *f, vf_rng *r)
         snprintf(rn, sizeof(rn), "a_real_%s_upper_", fn);
         vf_log("a_real_%s_lower_ then %s (column %u of an n x n block)", fn, rn, j);
         vf.evals += 2;
-        call_lower(fam, n, f->F, M.v + j, 1);
-        call_upper(fam, n, f->F, M.v + j, 1);
+        FX_TRAP_ON() call_lower(fam, n, f->F, M.v + j, 1); FX_TRAP_OFF()
+        FX_TRAP_ON() call_upper(fam, n, f->F, M.v + j, 1); FX_TRAP_OFF()
         gd_guard(&M, rn, "strided column");
         inputs_intact(f, rn);
         for (size_t i = 0; i < (size_t)n * n; ++i)
@@ -3186,14 +3218,16 @@ static void fx_solve_exact(fact_t *f, vf_rng *r)
     ++vf.evals;
     if (fam == FAM_PLU)
     {
-        a_real_plu_solve(n, f->F, f->p, bx, x.v);
+        FX_TRAP_ON() a_real_plu_solve(n, f->F, f->p, bx, x.v); FX_TRAP_OFF()
         const_intact(rn, "b", bx, b, n * sizeof(double));
     }
     else
     {
         memcpy(x.v, b, n * sizeof(double));
+        FX_TRAP_ON()
         if (fam == FAM_LDL) { a_real_ldl_solve(n, f->F, x.v); }
         else { a_real_llt_solve(n, f->F, x.v); }
+        FX_TRAP_OFF()
     }
     gd_guard(&x, rn, "x");
     inputs_intact(f, rn);
@@ -3214,8 +3248,10 @@ static void fx_inverse_exact(fact_t *f)
         gd_fill(&X);
         vf_log("%s(n, A, p, ..)", rn);
         ++vf.evals;
+        FX_TRAP_ON()
         if (v) { a_real_plu_inv_(n, f->F, f->p, X.v); }
         else { a_real_plu_inv(n, f->F, f->p, scratch.v, X.v); }
+        FX_TRAP_OFF()
         gd_guard(&scratch, rn, "scratch b");
         gd_guard(&X, rn, "I");
         inputs_intact(f, rn);
@@ -3247,7 +3283,9 @@ static void fx_det_sign_apply(fact_t *f, fx_t const *x, vf_rng *r)
         snprintf(rn, sizeof(rn), "a_real_%s_det", fn);
         vf_log("%s(n, A%s)", rn, fam == FAM_PLU ? ", sign" : "");
         ++vf.evals;
+        FX_TRAP_ON()
         double const det = fam == FAM_PLU ? a_real_plu_det(n, f->F, f->sign) : fam == FAM_LDL ? a_real_ldl_det(n, f->F) : a_real_llt_det(n, f->F);
+        FX_TRAP_OFF()
         inputs_intact(f, rn);
         cnt(fn, "-fenv-det-equals-integer-determinant");
         if (!(det == x->det))
@@ -3263,7 +3301,9 @@ static void fx_det_sign_apply(fact_t *f, fx_t const *x, vf_rng *r)
         snprintf(rn, sizeof(rn), "a_real_%s_sgndet", fn);
         vf_log("%s(n, A%s)", rn, fam == FAM_PLU ? ", sign" : "");
         ++vf.evals;
+        FX_TRAP_ON()
         int const sgn = fam == FAM_PLU ? a_real_plu_sgndet(n, f->F, f->sign) : a_real_ldl_sgndet(n, f->F);
+        FX_TRAP_OFF()
         inputs_intact(f, rn);
         cnt(fn, "_sgndet-equals-sign-of-pivot-product");
         if (sgn != esign) { viol2(rn, "not-sign-of-pivot-product", "%s n=%u class=%s: returned %d, sign * prod sign(pivot) = %d", rn, n, f->cname, sgn, esign); }
@@ -3272,7 +3312,9 @@ static void fx_det_sign_apply(fact_t *f, fx_t const *x, vf_rng *r)
         Z[(size_t)n * k + k] = (vf.case_no & 8) ? -0.0 : 0.0;
         vf_log("%s(n, A with pivot %u := 0)", rn, k);
         ++vf.evals;
+        FX_TRAP_ON()
         int const z = fam == FAM_PLU ? a_real_plu_sgndet(n, Z, f->sign) : a_real_ldl_sgndet(n, Z);
+        FX_TRAP_OFF()
         cnt(fn, "_sgndet-zero-pivot-gives-0");
         if (z != 0) { viol2(rn, "nonzero-for-zero-pivot", "%s n=%u: pivot %u set to zero but %d returned", rn, n, k, z); }
         free(Z);
@@ -3329,6 +3371,7 @@ static void fx_case(uint64_t c, vf_rng *r)
         cls = fx_substitute(fam, r);
     }
     int const role = fx_role(fam, cls);
+    fx_trap_class = role == FX_FAIL || role == FX_EXACT || role == FX_SUCCESS; /* FE_INVALID / FE_DIVBYZERO unmasked around the library calls */
     double *A0 = (double *)malloc((size_t)n * n * sizeof(double));
     char note[160];
     fx_t x;
@@ -3369,7 +3412,9 @@ static void fx_case(uint64_t c, vf_rng *r)
     fact_free(&f);
     free(x.EF);
     free(A0);
+    fx_trap_class = 1; /* integer triangular factors built by the harness: exact by construction */
     if (c / 36 % 4 == 0) { check_user_built(fam, n, r); }
+    fx_trap_class = 0;
 }
 #endif /* VF_FENV_ROTATE */
 
